@@ -52,6 +52,24 @@ public:
       StorageReflectSession::AboutToDetachFromServer();
    }
    static std::vector<std::string> * g_strayNodesAtLastDetach;
+   // What "some customized daemons" do with the protected subtree API: on a command of their own they copy one of their subtrees to a place where nothing is yet, either with
+   // CloneDataNodeSubtree() or by saving it to a Message and restoring that elsewhere.  Everything else is the stock session.
+   enum {CMD_COPY_SUBTREE = 1986421504};  // 'vfc\0'
+   virtual void MessageReceivedFromGateway(const MessageRef & msg, void * userData)
+   {
+      if ((msg())&&(msg()->what == CMD_COPY_SUBTREE))
+      {
+         const String src = msg()->GetString("src"), dst = msg()->GetString("dst"); SetDataNodeFlags flags; if (msg()->GetBool("indexed")) flags.SetBit(SETDATANODE_FLAG_ADDTOINDEX);
+         DataNode * s = GetDataNode(src);
+         if ((s)&&(dst.HasChars())&&(GetDataNode(dst) == NULL))
+         {
+            if (msg()->GetBool("restore")) {Message saved; if (SaveNodeTreeToMessage(saved, s, "", true).IsOK()) (void) RestoreNodeTreeFromMessage(saved, dst, true, flags);}
+                                      else (void) CloneDataNodeSubtree(*s, dst, flags);
+         }
+         return;
+      }
+      StorageReflectSession::MessageReceivedFromGateway(msg, userData);
+   }
 private:
    std::string _host;
 };
